@@ -1333,6 +1333,33 @@ fn check_ctor_state(run: &mut Run, h: &Header, a: &Alpha) {
             run.stats.bump("conversion_truncated");
         }
         run.stats.bump("conversion_ctor");
+        // C02: a conversion stores its pairs in order, so a key given twice holds its *last* value
+        // (pair i is (ident(i), v_{CONV_VAL_BASE+i}); the last `dup` pairs repeat the first keys).
+        // Arrays longer than 3 are cut by the driver: not judged.
+        if !(h.ctor == 7 && n > 3) {
+            let dup = h.sizes.get(1).copied().unwrap_or(0) as u32;
+            let first_dup = n - dup.min(n);
+            let ident = |i: u32| if i > first_dup { i - first_dup } else { i };
+            for e in a.lists[0].ents.iter() {
+                if let Some(last) = (1..=n).rev().find(|&i| ident(i) == e.ident) {
+                    let want = crate::subj::lru::CONV_VAL_BASE + last as u64;
+                    if e.val != want {
+                        run.viol(
+                            "C02",
+                            "conversion_stale_value",
+                            -1,
+                            &nop,
+                            format!(
+                                "conversion (constructor code {}) of {} pairs whose last {} repeat the first keys: key k{} holds v{} but the value stored last for it is v{}",
+                                h.ctor, n, dup, e.ident, e.val, want
+                            ),
+                        );
+                        break;
+                    }
+                    run.stats.bump("conversion_value_checked");
+                }
+            }
+        }
     } else if !a.lists.iter().all(|l| l.ents.is_empty()) {
         run.viol("C01", "fresh_not_empty", -1, &nop, "a freshly constructed cache is not empty".into());
     }
